@@ -187,4 +187,17 @@ theorem GetNSQDStats_keys : stmtsOf fetch_GetNSQDStats = [
     "channelStats.Add(channel)",
     "sort.Sort(TopicStatsByHost{topicStatsList})"] := by decide
 
+/-! ### (v) the request loop of GETV1 / POSTV1 (internal/http_api/api_request.go) -/
+
+/-- The retry rule is the one `Nsq.Model.Fetch.getV1` models: one request per pass; the jump back is taken on a 403
+when the *current* endpoint is not https — a condition recomputed on every pass (no identifier in it is
+loop-invariant) after `endpoint` has been replaced by the announced https endpoint. -/
+def retryLoopOk (fs : List (String × String)) : Bool :=
+  factsOf "jumpcond" fs == ["resp.StatusCode == 403 && !strings.HasPrefix(endpoint, \"https\")"] &&
+  factsOf "update" fs == ["endpoint, err = httpsEndpoint(endpoint, body)"] &&
+  factsOf "invariant" fs == [] && factsOf "requests" fs == ["1"] && (factsOf "loop" fs).length == 1
+
+theorem GETV1_retry_condition_recomputed : retryLoopOk retry_GETV1 = true := by decide
+theorem POSTV1_retry_condition_recomputed : retryLoopOk retry_POSTV1 = true := by decide
+
 end Nsq.Tie.AdminAgg
